@@ -68,6 +68,9 @@ FLAVOURS = {
              "-DCMAKE_CXX_FLAGS=-O1 -g -fsanitize=address,undefined -fno-sanitize-recover=undefined -fno-omit-frame-pointer",
              "-DCMAKE_C_FLAGS=-O1 -g -fsanitize=address,undefined",
              "-DCMAKE_EXE_LINKER_FLAGS=-fsanitize=address,undefined"],
+    # libstdc++ precondition checks (e.g. back() on an empty string aborts): turns
+    # some undefined behaviour into a deterministic abort of the real tool
+    "assert": ["-DCMAKE_BUILD_TYPE=Release", "-DCMAKE_CXX_FLAGS=-g1 -D_GLIBCXX_ASSERTIONS"],
     "tsan": ["-DCMAKE_BUILD_TYPE=RelWithDebInfo",
              "-DCMAKE_CXX_FLAGS=-O1 -g -fsanitize=thread",
              "-DCMAKE_EXE_LINKER_FLAGS=-fsanitize=thread"],
@@ -693,3 +696,66 @@ def run_lines_robust(exe, lines, timeout=120, env=None, args=(), per_line_timeou
         rest = rest[len(complete) + 1:]
         first = False
     return out_all
+
+
+# --------------------------------------------------------------------------
+# resource-limited runs of real code (added for C07/C08/C19: a broken loop in the
+# code under test must become a violation with its input, not a hung or
+# memory-eating check)
+
+def _limits(mem_mb):
+    def f():
+        import resource
+        os.setsid()
+        if mem_mb:
+            b = mem_mb * 1024 * 1024
+            resource.setrlimit(resource.RLIMIT_AS, (b, b))
+    return f
+
+
+def run_limited(argv, stdin=b"", timeout=20, mem_mb=2048, env=None):
+    """Like run_tool, but in its own process group (killed as a whole on timeout) and
+    with an address-space limit.  Returns (status, stdout, stderr); status 'timeout'."""
+    import signal
+    p = subprocess.Popen(argv, stdin=subprocess.PIPE, stdout=subprocess.PIPE, stderr=subprocess.PIPE,
+                         env=env, preexec_fn=_limits(mem_mb))
+    try:
+        out, err = p.communicate(stdin, timeout=timeout)
+        return p.returncode, out, err
+    except subprocess.TimeoutExpired:
+        try:
+            os.killpg(p.pid, signal.SIGKILL)
+        except Exception:
+            p.kill()
+        out, err = p.communicate()
+        return "timeout", out or b"", err or b""
+    finally:
+        try:
+            os.killpg(p.pid, signal.SIGKILL)     # stray children of the tool (scripted child programs)
+        except Exception:
+            pass
+
+
+def run_lines_limited(exe, lines, timeout=120, mem_mb=2048):
+    """run_lines with limits.  Returns (status, out_lines, stderr_text)."""
+    st, out, err = run_limited([exe], ("\n".join(lines) + "\n").encode(), timeout=timeout, mem_mb=mem_mb)
+    o = out.decode("utf-8", "replace").split("\n")
+    if o and o[-1] == "":
+        o.pop()
+    return st, o, err.decode("utf-8", "replace")
+
+
+def find_culprit(exe, lines, timeout=5, mem_mb=2048):
+    """The harness did not answer all lines: find the first line it does not survive
+    (answers come one per line, so the number of answers locates it)."""
+    lo = 0
+    for _ in range(8):
+        st, o, err = run_lines_limited(exe, lines[lo:], timeout=timeout if lo else 60, mem_mb=mem_mb)
+        if len(o) >= len(lines) - lo:
+            return None
+        bad = lo + len(o)
+        st1, o1, e1 = run_lines_limited(exe, [lines[bad]], timeout=timeout, mem_mb=mem_mb)
+        if len(o1) < 1:
+            return bad, st1, e1[-300:]
+        lo = bad + 1
+    return None
